@@ -7,9 +7,9 @@ and callable parameter independently one of the 9 / 5 flavours, with suspensions
 be identical; the object each public callable returns must be awaitable / an async iterator.
 """
 
-from ..actors import World, SrcPlan, FnPlan, ident, is_source_item
+from ..actors import World, SrcPlan, FnPlan, ident, is_source_item, FAULT_TYPES
 from ..runner import Outcome
-from ..tools import TOOLS, AGGS, TOOL_NAMES, AGG_NAMES, Gen, Spec, draw_cfg, lib
+from ..tools import TOOLS, AGGS, TOOL_NAMES, AGG_NAMES, Gen, Spec, draw_cfg, lib, ABSENT
 from ..tooldiff import Run, drive_tool, drive_agg, project_values, first_diff, build_async, _objs
 from .common import COMPONENTS_BASE, run_sim, new_sim, finish_outcome, bounded_steps, spec_nontrivial
 
@@ -18,7 +18,8 @@ LEVEL = "exploration"
 BUDGET = {"quick": 200000, "thorough": 4000000}
 RULE = (
     "each run draws 1..2 scenarios (tool of C01 incl. groupby, or aggregation of C02; one run in six an ExitStack with 1..4 pushed exit callables / callbacks instead; items with "
-    "ties / unorderable / unhashable members) and executes each twice in one simulated loop: baseline (lists + "
+    "ties / unorderable / unhashable members; sums over inexact floats, str and bytes; one scenario in ten with an "
+    "iterable whose __iter__/__aiter__ itself raises) and executes each twice in one simulated loop: baseline (lists + "
     "def callables) vs flavoured (each iterable parameter independently list / tuple / __getitem__ sequence / "
     "one-shot iterator / async generator / class-based async iterator with or without aclose / async iterable / "
     "async generator protocol object; each callable def / async def / partial(async def) / object returning a "
@@ -34,13 +35,49 @@ ASSUMPTIONS = [
     "are also covered by the tool table (groupby is one of the tools); asynctools shapes in C19",
 ]
 PROBES = ("mixed_flavours_in_one_call", "async_callable", "partial_or_object_callable", "class_based_source",
-          "error_outcome", "aggregation", "tool", "exit_callbacks")
+          "error_outcome", "aggregation", "tool", "exit_callbacks", "iterable_fails_to_open")
 NAMES = TOOL_NAMES + AGG_NAMES
+
+
+_FLOATS = (0.1, 0.2, 0.3, 0.7, 1e100, 1.0, -1e100, 1e16, -1e16, 3.3)
+
+
+def tricky_sum(g):
+    """sum over data where *how* one adds matters: inexact floats (left-to-right vs compensated), str / bytes
+    (the builtin refuses a str start); whatever the library does, it does it for every flavour alike"""
+    ch = g.ch
+    mode = ch.draw(4)
+    n = ch.draw(11)
+    if mode <= 1:
+        items = [_FLOATS[ch.draw(len(_FLOATS))] for _ in range(n)]
+        if mode == 1 and n:
+            items = [items[0]] * n
+        start = (ABSENT, 0.0, 0.1, 0)[ch.draw(4)]
+    elif mode == 2:
+        items = [("a", "b", "", "cd")[ch.draw(4)] for _ in range(min(n, 4))]
+        start = ("", "x")[ch.draw(2)]
+    else:
+        items = [(b"a", b"b", b"")[ch.draw(3)] for _ in range(min(n, 4))]
+        start = (b"", b"x")[ch.draw(2)]
+    return Spec("sum", [g.src(items)], [], {"start": start})
+
+
+_ITER_FAULT_FLAVOURS = ("sync_iter", "aiter_cls", "aiter_noclose", "aiterable", "aiter_full", "set_abc")
+
+
+def failing_iter(ch, spec):
+    """One iterable argument whose __iter__ / __aiter__ itself raises (a stream that cannot be opened)"""
+    if not spec.srcs or spec.p.get("alias") or (spec.tool == "chain" and spec.p.get("form") == 2):
+        return
+    p = spec.srcs[ch.draw(len(spec.srcs))]
+    p.flavour = _ITER_FAULT_FLAVOURS[ch.draw(len(_ITER_FAULT_FLAVOURS))]
+    p.iter_fault = FAULT_TYPES[ch.draw(len(FAULT_TYPES))]
 
 
 def baseline_of(spec):
     alias = spec.p.get("alias")
-    srcs = [SrcPlan(p.name, p.items, "sync_iter" if (alias and n == alias[0]) else "list")
+    srcs = [SrcPlan(p.name, p.items, "sync_iter" if ((alias and n == alias[0]) or p.iter_fault is not None) else "list",
+                    iter_fault=p.iter_fault)
             for n, p in enumerate(spec.srcs)]
     fns = [FnPlan(p.name, p.kind, p.param, "def") if p is not None else None for p in spec.fns]
     base = Spec(spec.tool, srcs, fns, spec.p)
@@ -279,6 +316,10 @@ def execute_tools(st, ctx, out):
         name = NAMES[ch.draw(len(NAMES))]
         is_agg = name in AGGS
         spec = (AGGS if is_agg else TOOLS)[name].gen(g)
+        if name == "sum" and ch.chance(1, 2):
+            spec = tricky_sum(g)
+        if ch.chance(1, 10):
+            failing_iter(ch, spec)
         base = baseline_of(spec)
         steps = None
         if not is_agg and TOOLS[name].infinite:
@@ -312,6 +353,20 @@ def execute_tools(st, ctx, out):
                 out.violate("C03.returns_plain_value", (tool, which), dict(describe(), returned=type(run.it).__name__))
         a, b = project_values(rb.log), project_values(rf.log)
         pos = first_diff(a, b)
+        failing = [p for p in spec.srcs if p.iter_fault is not None]
+        if failing:
+            # an iterable that cannot be opened: sync iterables are adapted lazily, async ones opened eagerly, so
+            # *when* (and whether) the failure surfaces is not judged - only that it surfaces as what was raised
+            out.probes["iterable_fails_to_open"] = 1
+            pos = None
+            opened = [any(e[0] == "iter_raise" for e in r.log) for r in (rb, rf)]
+            if all(opened):
+                want = ("end", "exc", failing[0].iter_fault.__name__)
+                for which, vals in (("baseline", a), ("flavoured", b)):
+                    if not vals or vals[-1] != want:
+                        out.violate("C03.result_depends_on_flavour", (tool, "open_failure_" + which),
+                                    dict(describe(), expected_ending=repr(want)))
+                        break
         if pos is not None:
             ea = a[pos] if pos < len(a) else None
             eb = b[pos] if pos < len(b) else None
